@@ -41,7 +41,7 @@ import (
 // Packet ids of protocol 764 (1.20.2), clientbound, written down from the
 // protocol documentation (not taken from gate's registry).
 const (
-	idPlayTitleTimes = 0x62 // play: Set Title Animation Times (3 x int32)
+	idPlayTitleTimes = 0x62 // play: Set Title Animation Times (3 x int32); 0x64 in protocol 765 (1.20.3)
 	idPlayKeepAlive  = 0x24 // play: Keep Alive (int64)
 	idConfKeepAlive  = 0x03 // configuration: Keep Alive (int64)
 	idSentinel       = 0x7F // harness marker, written with conn.Write
@@ -94,6 +94,7 @@ func (w *lineWriter) Emit(r tracefmt.Rec) {
 
 // rig is one real connection plus the independent far end.
 type rig struct {
+	idTimes  int
 	tw       emitter
 	conn     netmc.MinecraftConn
 	far      net.Conn
@@ -106,13 +107,30 @@ type rig struct {
 	mu       sync.Mutex
 }
 
-func newRig(tw emitter, writers []string) *rig {
+// protocolOf alternates the runs between the first protocol with a configuration phase
+// (764, 1.20.2) and the next one (765, 1.20.3): both sides of every "since 1.20.2" switch.
+func protocolOf(n int) int {
+	if n%2 == 1 {
+		return 765
+	}
+	return 764
+}
+
+func newRig(tw emitter, writers []string) *rig { return newRigProto(tw, writers, 764) }
+
+func newRigProto(tw emitter, writers []string, protoNo int) *rig {
 	a, b := net.Pipe()
 	conn, _ := netmc.NewMinecraftConn(context.Background(), a, proto.ServerBound,
 		10*time.Second, 10*time.Second, -1, nil)
-	conn.SetProtocol(version.Minecraft_1_20_2.Protocol)
+	idTimes := idPlayTitleTimes
+	if protoNo == 765 {
+		conn.SetProtocol(version.Minecraft_1_20_3.Protocol)
+		idTimes = 0x64
+	} else {
+		conn.SetProtocol(version.Minecraft_1_20_2.Protocol)
+	}
 	conn.SetState(state.Play)
-	r := &rig{tw: tw, conn: conn, far: b, sentinel: make(chan uint32, 64), eof: make(chan struct{}),
+	r := &rig{idTimes: idTimes, tw: tw, conn: conn, far: b, sentinel: make(chan uint32, 64), eof: make(chan struct{}),
 		writerNo: map[string]int{}, names: map[int]string{}}
 	for i, w := range writers {
 		r.writerNo[w] = i + 1
@@ -159,7 +177,7 @@ func (r *rig) readFar() {
 		switch {
 		case id == idSentinel && len(body) == 4:
 			r.sentinel <- binary.BigEndian.Uint32(body)
-		case id == idPlayTitleTimes && len(body) == 12 && binary.BigEndian.Uint32(body[8:]) == timesMagic:
+		case id == r.idTimes && len(body) == 12 && binary.BigEndian.Uint32(body[8:]) == timesMagic:
 			w := int(binary.BigEndian.Uint32(body[0:]))
 			seq := int(binary.BigEndian.Uint32(body[4:]))
 			r.emitWire("P", w, seq, id)
@@ -302,8 +320,9 @@ func sortedKeys(m map[string][]string) []string {
 // else is one.
 func runSchedule(tw emitter, st *stats, n int, s schedule, step time.Duration, outbound bool) {
 	writers := sortedKeys(s.Prog)
-	tw.Emit(tracefmt.Rec{"ev": "reset", "cap": 1024, "n": n, "mode": "sched", "outbound": outbound, "prefill": s.Prefill})
-	r := newRig(tw, append(append([]string{}, writers...), "m"))
+	tw.Emit(tracefmt.Rec{"ev": "reset", "cap": 1024, "n": n, "mode": "sched", "outbound": outbound, "prefill": s.Prefill,
+		"protocol": protocolOf(n)})
+	r := newRigProto(tw, append(append([]string{}, writers...), "m"), protocolOf(n))
 	gates := []string{"pq.readptr", "pq.release.begin"}
 	if s.Prefill {
 		// the model starts in config with cap-1 packets held: get there, then also gate
@@ -422,9 +441,19 @@ func runScenarios(tw emitter, st *stats) {
 		names = append(names, k)
 	}
 	sort.Strings(names)
-	for i, name := range names {
-		tw.Emit(tracefmt.Rec{"ev": "reset", "cap": 1024, "n": i, "mode": "scenario", "name": name})
-		r := newRig(tw, []string{"m"})
+	// every scenario on both protocols: 764 is the first one with a configuration phase
+	var both []string
+	for _, name := range names {
+		both = append(both, name+"@764", name+"@765")
+	}
+	for i, full := range both {
+		name := full[:len(full)-4]
+		protoNo := 764
+		if strings.HasSuffix(full, "@765") {
+			protoNo = 765
+		}
+		tw.Emit(tracefmt.Rec{"ev": "reset", "cap": 1024, "n": i, "mode": "scenario", "name": full, "protocol": protoNo})
+		r := newRigProto(tw, []string{"m"}, protoNo)
 		seq := 0
 		for _, o := range scen[name] {
 			switch o.do {
